@@ -30,7 +30,7 @@ func (Prop) Assumptions() []string {
 }
 
 func (Prop) Plan(tier string) []lib.Workload {
-	n := 150
+	n := 90
 	if tier == "thorough" {
 		n = 8000
 	}
